@@ -97,10 +97,71 @@ SCENARIOS = [
     ("uncaught-builtin-failure-after-a-caught-throw",
      'fn thrower() {\n  throw "x";\n}\ntry { thrower(); } catch e { print("caught"); }\nvar z = nil + 1;',
      ["caught"], ("err", "TypeError", "Unhandled TypeError: Binary operands must be two numbers or two strings.")),
+    ("return-after-a-nested-try-statement-still-runs-finally",
+     'fn parse(x) { try { try { if x == 0 { throw "inner"; } } catch e { print("inner caught"); } return "ret " + String.from(x); } finally { print("parse: finally"); } }\n'
+     'print(parse(1)); print(parse(0)); try { throw "late"; } catch e { print("caught: " + e); }',
+     ["parse: finally", "ret 1", "inner caught", "parse: finally", "ret 0", "caught: late"], "ok"),
+    ("return-between-two-sibling-try-statements",
+     'fn f(k) { try { try { print("a"); } finally { print("fa"); } if k == 1 { return "mid"; } try { print("b"); } catch e { print("no"); } return "end"; } finally { print("outer fin"); } }\n'
+     'print(f(1)); print(f(2));',
+     ["a", "fa", "outer fin", "mid", "a", "fa", "b", "outer fin", "end"], "ok"),
     ("catch-variable-scoped",
      'var e = "outer"; try { throw "t"; } catch e { print(e); } print(e);',
      ["t", "outer"], "ok"),
 ]
+
+# every kind of built-in failure, raised two calls deep inside a try: the innermost handler gets an instance of the stated class, the
+# caller's finally runs, and the program continues
+BUILTIN_FAILURES = [
+    ("nil + 1", "TypeError"), ("1 - \"a\"", "TypeError"), ("\"a\" * 2", "TypeError"), ("1 / nil", "TypeError"), ("true % 2", "TypeError"),
+    ("1 & \"x\"", "TypeError"), ("nil | 1", "TypeError"), ("1 ^ nil", "TypeError"), ("1 << \"s\"", "TypeError"), ("nil >> 1", "TypeError"),
+    ("1 < \"2\"", "TypeError"), ("nil > 1", "TypeError"), ("1 <= nil", "TypeError"), ("\"a\" >= 1", "TypeError"), ("-\"s\"", "TypeError"), ("~nil", "TypeError"),
+    ("\"a\" + 1", "TypeError"), ("nil[0]", "TypeError"), ("5[0]", "TypeError"), ("{\"a\": 1}[0]", "TypeError"), ("K.new()[0]", "TypeError"), ("(|| 1)[0]", "TypeError"),
+    ("[1][5]", "IndexError"), ("[1][-2]", "IndexError"), ("(1, 2)[2]", "IndexError"), ("\"abc\"[3]", "IndexError"), ("\"é\"[1]", "IndexError"), ("[1, 2][3..4]", "IndexError"),
+    ("[1][0.5]", "ValueError"), ("[1][(0/0)]", "ValueError"), ("\"a\"[1.5]", "ValueError"), ("[1][nil]", "TypeError"), ("[1][\"0\"]", "TypeError"),
+    ("1..\"a\"", "TypeError"), ("nil..2", "TypeError"), ("1..2.5", "ValueError"),
+    ("nil()", "TypeError"), ("5(1)", "TypeError"), ("\"s\"()", "TypeError"), ("K.new()()", "TypeError"), ("two(1)", "TypeError"), ("two(1, 2, 3)", "TypeError"),
+    ("K.new().m(1)", "TypeError"), ("undefined_global", "NameError"), ("K.new().nosuch", "AttributeError"), ("K.new().nosuch()", "AttributeError"),
+    ("nil.x", "AttributeError"), ("5.nosuch()", "AttributeError"), ("\"s\".nosuch", "AttributeError"), ("K.nosuch()", "AttributeError"),
+    ("\"a\".len(1)", "TypeError"), ("\"a\".find(1, 0)", "TypeError"), ("\"a\".find(\"\", 0)", "ValueError"), ("\"a\".find(\"a\", 9)", "IndexError"),
+    ("\"a\".char_byte_index(5)", "IndexError"), ("\"x\".to_num()", "ValueError"), ("String.from_utf8([255])", "ValueError"), ("String.from_ascii([300])", "ValueError"),
+    ("String.from_code_points([1114112])", "ValueError"), ("[].pop()", "RuntimeError"), ("[1].push()", "TypeError"), ("{}.get([1])", "ValueError"),
+    ("{}.insert([], 1)", "ValueError"), ("{[1]: 2}", "ValueError"), ("{}.get()", "TypeError"), ("Fiber.new(3)", "TypeError"), ("Fiber.new(|a, b| a)", "ValueError"),
+    ("Fiber.yield(1)", "RuntimeError"), ("done_fiber.call()", "RuntimeError"), ("Fiber.new(|a| a).call()", "TypeError"), ("[1, 2].iter().map(|v| v + nil).collect()", "TypeError"),
+    ("[1, 2].iter().reduce(|a| a, 0)", "TypeError"), ("host_raise(\"ImportError\", \"h\")", "ImportError"), ("host_raise(\"NameError\", \"h\")", "NameError"),
+    ("deep_recursion(0)", "IndexError"), ("1.derives()", "TypeError"), ("type()", "TypeError"), ("print(1, 2)", "TypeError"),
+]
+BUILTIN_STATEMENTS = [
+    ("var q = 5; q.x = 1;", "AttributeError"), ("var v = (1, 2); v[0] = 3;", "TypeError"), ("var s = \"abc\"; s[0] = \"x\";", "TypeError"), ("var v = [1]; v[3] = 1;", "IndexError"),
+    ("var v = [1]; v[0.5] = 1;", "ValueError"), ("import \"no_such_module\";", "ImportError"), ("import \"bad_syntax_module\";", "ImportError"),
+    ("var NotC = 3; #[derive(NotC)] class Bad {}", "RuntimeError"), ("for x in 5 { }", "AttributeError"), ("for x in K.new() { }", "AttributeError"),
+    ("undefined_global2 = 1;", "NameError"), ("var m = 1; m += nil;", "TypeError"),
+]
+
+
+def builtin_failure_program():
+    lines = ["#[constructor(new)] class K { fn m(self) { return 1; } }", "fn two(a, b) { return a; }", "fn deep_recursion(n) { return deep_recursion(n + 1); }",
+             "var done_fiber = Fiber.new(|| 1); done_fiber.call();", "var fins = 0;"]
+    expected = []
+    n = 0
+    for src, cls in [(e, c) for e, c in BUILTIN_FAILURES] + [(None, None)]:
+        if src is None:
+            break
+        n += 1
+        lines.append("fn inner%d() { var local = \"L%d\"; var z = %s; return local; }" % (n, n, src))
+        lines.append("fn outer%d() { try { return inner%d(); } finally { fins = fins + 1; } }" % (n, n))
+        lines.append("try { print(outer%d()); print(\"no error %d\"); } catch e { print(\"%d \" + String.from(type(e) == %s) + \" \" + String.from(e.derives(Error))); }" % (n, n, n, cls))
+        expected.append("%d true true" % n)
+    for src, cls in BUILTIN_STATEMENTS:
+        n += 1
+        lines.append("fn inner%d() { var local = \"L%d\"; %s return local; }" % (n, n, src))
+        lines.append("fn outer%d() { try { return inner%d(); } finally { fins = fins + 1; } }" % (n, n))
+        lines.append("try { print(outer%d()); print(\"no error %d\"); } catch e { print(\"%d \" + String.from(type(e) == %s) + \" \" + String.from(e.derives(Error))); }" % (n, n, n, cls))
+        expected.append("%d true true" % n)
+    lines.append("print(fins);")
+    expected.append(str(n))
+    return "\n".join(lines) + "\n", expected, {"bad_syntax_module": "var = ;\n"}
+
 
 # open findings: kept as corpus replays with their expected (property-conforming) output
 KNOWN_SCENARIOS = [
@@ -183,6 +244,18 @@ def correspondence(ctx, model_ok=True):
             if err or uaf:
                 failures.append({"what": "exception scenario '%s': %s" % (name, err or uaf), "program": src, "expected": e, "expected_outcome": o,
                                  "observed": progs.canon_step(r), "signature": "scenario " + name, "failing_input": True})
+    # every kind of built-in failure is delivered to the innermost handler as an instance of its class
+    bsrc, bexp, bmods = builtin_failure_program()
+    for mode in ({"gc": "default"}, {"gc": "always", "quarantine": 1}):
+        bres, _ = progs.run_programs(ctx.runner, [("builtin-failures", bsrc, bmods)], mode, steps_budget=50000000, tag="b")
+        c = progs.canon_step(bres[0])
+        printed = list(c[2]) if len(c) > 2 else []
+        if c[0] != "ok" or printed != bexp:
+            k = next((i for i in range(min(len(printed), len(bexp))) if printed[i] != bexp[i]), min(len(printed), len(bexp)))
+            which = (BUILTIN_FAILURES + BUILTIN_STATEMENTS)[k] if k < len(BUILTIN_FAILURES) + len(BUILTIN_STATEMENTS) else ("finally count", "")
+            failures.append({"what": "built-in failure `%s` (expected %s) is not delivered to the innermost handler as an instance of its class: got %r (run ended %s %s)" % (
+                which[0], which[1], printed[k:k + 1], c[0], list(c[3])[:1] if len(c) > 3 else ""),
+                "program": bsrc, "modules": bmods, "expected": bexp, "signature": "builtin failure not caught: " + str(which[0])[:40], "failing_input": True})
     # (c) reference interpreter
     sd = specdiff.diff(ctx, [(n, s, m) for n, s, m, _ in gen], "C08", broken) if model_ok else {"failures": [], "compared": 0}
     failures += sd["failures"]
